@@ -179,6 +179,7 @@ def run_local_batch(specs):
     for (s, o), ch in zip(outs, chunks):
         o["got"] = ch
         o["diff"] = drv.compare(o["lines"], o["expect"], ch)
+        _with_audit(s, o)
     return outs
 
 
@@ -225,6 +226,47 @@ def run_grid_scenario(spec):
     return out
 
 
+def audit_tape(spec, lines):
+    """the hypotheses TapeOK / GridOK of the whole-run theorems, checked on the recorded tape of a real run: random positions and
+    candidate-grid rows are positions of the space, float position vectors have one entry per dimension and no nan"""
+    sizes = [len(v) for v in spec["space"].values()]
+    nd = len(sizes)
+    inner = spec["opt"] == "PowellsMethod"          # its inner climber draws in a 1-D space of its own
+    bad = []
+
+    def in_space(toks):
+        return len(toks) == nd and all(0 <= int(t) < n for t, n in zip(toks, sizes))
+    for l in lines:
+        if not l.startswith("lt "):
+            continue
+        t = l.split()
+        k, a = t[1], t[2:]
+        if inner and k in ("r", "d", "c"):
+            continue
+        if k == "r" and not in_space(a):
+            bad.append(("rnd-not-in-space", l))
+        elif k == "d" and (len(a) != 2 * nd or "nan" in a[nd:]):
+            bad.append(("dist-vector", l))
+        elif k in ("s", "m") and (len(a) != nd or "nan" in a):
+            bad.append(("float-position-vector", l))
+        elif k == "p" and len(a) != 2 * nd:
+            bad.append(("part-vector", l))
+        elif k == "I" and spec["opt"] in SMBO3:
+            rows = [a[1 + i * nd: 1 + (i + 1) * nd] for i in range(int(a[0]))]
+            if not all(in_space(r) for r in rows):
+                bad.append(("grid-row-not-in-space", l[:200]))
+        if len(bad) >= 3:
+            break
+    return bad
+
+
+def _with_audit(s, o):
+    if o["diff"] is None:
+        bad = audit_tape(s, o["lines"])
+        if bad:
+            o["diff"] = {"tape-assumption-violated": bad}
+
+
 def run_batch(specs, runner):
     outs = []
     all_lines = []
@@ -243,6 +285,7 @@ def run_batch(specs, runner):
     for (s, o), ch in zip(outs, chunks):
         o["got"] = ch
         o["diff"] = drv.compare(o["lines"], o["expect"], ch)
+        _with_audit(s, o)
     return outs
 
 
